@@ -120,8 +120,14 @@ fn gen_dec_literal(r: &mut Rng) -> String {
             format!("{}{}", base, "0".repeat(r.below(5) as usize))
         }
         _ => {
-            let e = *r.pick(&[308i64, 309, -323, -324, -325, 400, -400, 22, 23, -22, -23, 2147483647, 2147483648, -2147483648, 99999999999]);
-            format!("{}e{}", 1 + r.below(20), e)
+            // exponents at the edges of the double range and of i32, digits (zeros too) after the overflow point
+            let e = *r.pick(&[308i64, 309, -323, -324, -325, 400, -400, 22, 23, -22, -23, 2147483647, 2147483648, -2147483648, 99999999999,
+                              21474836470, -21474836480, 30000000000, -30000000000, 1000000000000000, -1000000000000000, 2147483650, -2147483650]);
+            match r.below(4) {
+                0 => format!("0e{}", e),
+                1 => format!("0.0e{}", e),
+                _ => format!("{}e{}", 1 + r.below(20), e),
+            }
         }
     }
 }
@@ -549,7 +555,19 @@ pub fn run_c10(tier: &str, seed: u64, out: &mut Out) {
                 Err(_) => out.fail("panic", "a datum accessor panicked".into(), case.clone(), json!({})),
             }
             let v: Value = d.clone().into();
-            if &v != d.value() { out.fail("accessors", "Value::from(datum) differs from datum.value()".into(), case, json!({})); }
+            if &v != d.value() { out.fail("accessors", "Value::from(datum) differs from datum.value()".into(), case.clone(), json!({})); }
+            // datum equality: equal to its clone and to a second parse of the same text; the same datum
+            // moved one column to the right has other spans
+            out.oracle_checks += 1;
+            if d != d.clone() { out.fail("datum-eq", "a datum differs from its clone".into(), case.clone(), json!({})); }
+            if let Ok(Ok(d2)) = parse_datum(Src::Slice, ro, &text) {
+                if d != d2 { out.fail("datum-eq", "two parses of the same text give unequal datums".into(), case.clone(), json!({})); }
+            }
+            let mut shifted = vec![b' '];
+            shifted.extend_from_slice(&text);
+            if let Ok(Ok(d3)) = parse_datum(Src::Slice, ro, &shifted) {
+                if d.span().start().line() == 1 && d3.value() == d.value() && d3 == d { out.fail("datum-eq", "datums with different spans compare equal".into(), case, json!({})); }
+            }
         }
         // the full accessor walk (list_iter with peek / is_empty / next, vector_iter, as_pair) against the model's
         for src in srcs_for(&text) {
